@@ -1,14 +1,18 @@
 ------------------------------ MODULE SemCheck ------------------------------
 (* Trace validation against FerretSem: cases.ndjson holds one record per executed program:
-   [id, prog (AST), out (the lines the executable printed), halt ("exit0" | "panic")].
+   [id, prog (AST), out (the lines the executable printed), halt ("exit0" | "panic"), out2, halt2].
    For each record TLC evaluates Run(prog) and decides whether the recorded behaviour is the one the
    semantics prescribe; the verdict and the prescribed behaviour are emitted for the report. *)
 EXTENDS FerretSem
 Cases == ndJsonDeserialize("cases.ndjson")
 VARIABLE ci
 Init == ci = 1
+(* out2 / halt2: the record of a second execution of the same program (the other back end, C02; equal to
+   out / halt when there is only one).  ok2: the second record is the prescribed behaviour; agree: the two
+   records are the same lines and the same kind of termination. *)
 Verdict(c) == LET r == Run(c.prog) IN
-              [id |-> c.id, ok |-> (r.out = c.out /\ r.halt = c.halt), out |-> r.out, halt |-> r.halt]
+              [id |-> c.id, ok |-> (r.out = c.out /\ r.halt = c.halt), out |-> r.out, halt |-> r.halt,
+               ok2 |-> (r.out = c.out2 /\ r.halt = c.halt2), agree |-> (c.out = c.out2 /\ c.halt = c.halt2)]
 Next == /\ ci <= Len(Cases) /\ ci' = ci + 1
         /\ PrintT("@@OUT " \o ToJson(Verdict(Cases[ci])))
 Spec == Init /\ [][Next]_ci
